@@ -621,7 +621,7 @@ def growth_battery(seed=0, hints=()):
     return dict(reproduced=False)
 
 
-def units(tier, seed):
+def _units_body(tier, seed):
     from cryptoparser.tls.extension import TlsExtensionVariantClient, TlsExtensionUnparsed
     from cryptoparser.tls.ciphersuite import TlsCipherSuiteFactory
     from cryptoparser.tls.grease import TlsInvalidTypeTwoByte
@@ -649,6 +649,12 @@ def units(tier, seed):
     UNCOVERED[:] = [u for u in UNCOVERED if not u.startswith('loop without contract')] + \
         ['loop without contract: %s loop#%d: %s' % (k[0], k[1], v) for k, v in sorted(UNCOVERED_LOOPS.items())]
     return out
+
+
+
+def units(tier, seed):
+    from checks import canary
+    return list(_units_body(tier, seed)) + [canary.progress_two_bytes()]
 
 
 FINDING_REPLAYS = {}
